@@ -530,6 +530,15 @@ func (u *Unit) applyContract(s *State, f *Frame, x ssa.Value, callee *ssa.Functi
 		rv := u.symbolic(s, "r_"+callee.Name(), res.At(i).Type())
 		rvals = append(rvals, rv)
 	}
+	if c.Function && len(rvals) >= 1 {
+		// deterministic pure function: each result is an uninterpreted function of the arguments and
+		// of the memory reachable from them (same term for equal arguments and unchanged memory)
+		for i := range rvals {
+			if ft := u.functionApp(s, callee, args, i); ft != nil && rvals[i].T != nil && ft.Sort == rvals[i].T.Sort {
+				s.assume(Eq(rvals[i].T, ft))
+			}
+		}
+	}
 	bindResults(env.names, callee, c, rvals)
 	env.old = old
 	env.oldNames = env.names
@@ -744,5 +753,74 @@ func (u *Unit) applyIfaceContract(s *State, f *Frame, x *ssa.Call, ic *Contract,
 		f.Vals[x] = rvals[0]
 	default:
 		f.Vals[x] = Value{Tup: rvals, Ty: res}
+	}
+}
+
+// functionApp builds UF_f_i(args..., heaps reachable from the parameter types...).
+func (u *Unit) functionApp(s *State, callee *ssa.Function, args []Value, resIdx int) *Term {
+	sig := callee.Signature
+	var ts []*Term
+	var sorts []string
+	for _, a := range args {
+		if a.T == nil {
+			return nil
+		}
+		ts = append(ts, a.T)
+		sorts = append(sorts, a.T.Sort)
+	}
+	reach := map[string]types.Type{}
+	if sig.Recv() != nil {
+		reachableHeapTypes(sig.Recv().Type(), reach, 0)
+	}
+	for i := 0; i < sig.Params().Len(); i++ {
+		reachableHeapTypes(sig.Params().At(i).Type(), reach, 0)
+	}
+	var keys []string
+	for k := range reach {
+		keys = append(keys, k)
+	}
+	sortStrings(keys)
+	for _, k := range keys {
+		_, h := u.heap(s, k[:1], reach[k])
+		ts = append(ts, h)
+		sorts = append(sorts, h.Sort)
+	}
+	rt := sig.Results().At(resIdx).Type()
+	name := fmt.Sprintf("fn_%s_%d", sanitize(shortKey(fnKey(callee))), resIdx)
+	return u.W.UF(name, sorts, u.W.SortOf(rt), ts...)
+}
+
+// reachableHeapTypes: S- and P-heaps (with their element types) reachable from a value of type t.
+func reachableHeapTypes(t types.Type, out map[string]types.Type, depth int) {
+	if depth > 5 {
+		return
+	}
+	switch u := t.Underlying().(type) {
+	case *types.Slice:
+		k := "S:" + TypeKey(u.Elem())
+		if _, ok := out[k]; !ok {
+			out[k] = u.Elem()
+			reachableHeapTypes(u.Elem(), out, depth+1)
+		}
+	case *types.Pointer:
+		if a, ok := u.Elem().Underlying().(*types.Array); ok {
+			k := "S:" + TypeKey(a.Elem())
+			if _, ok := out[k]; !ok {
+				out[k] = a.Elem()
+				reachableHeapTypes(a.Elem(), out, depth+1)
+			}
+		} else {
+			k := "P:" + TypeKey(u.Elem())
+			if _, ok := out[k]; !ok {
+				out[k] = u.Elem()
+				reachableHeapTypes(u.Elem(), out, depth+1)
+			}
+		}
+	case *types.Struct:
+		for i := 0; i < u.NumFields(); i++ {
+			reachableHeapTypes(u.Field(i).Type(), out, depth+1)
+		}
+	case *types.Array:
+		reachableHeapTypes(u.Elem(), out, depth+1)
 	}
 }
